@@ -225,12 +225,20 @@ def _scenario(mws):
     def ep_raiselong():
         from clastic.errors import BadGateway
         raise BadGateway('compressible detail ' * 40)
-    return Application([('/retlong', ep_retlong), ('/raiselong', ep_raiselong), ('/resp', ep_resp), ('/ctx', ep_ctx, render_basic), ('/redir', ep_redirect),
+    def ep_echo(request):
+        body = request.get_data()
+        return Response(b'%d:' % len(body) + body, mimetype='application/octet-stream')
+
+    def ep_passthrough(request):
+        import io
+        from werkzeug.wsgi import wrap_file
+        return Response(wrap_file(request.environ, io.BytesIO(BODIES[2] * 3)), direct_passthrough=True, mimetype='text/plain')
+    return Application([('/echo', ep_echo), ('/passthrough', ep_passthrough), ('/retlong', ep_retlong), ('/raiselong', ep_raiselong), ('/resp', ep_resp), ('/ctx', ep_ctx, render_basic), ('/redir', ep_redirect),
                         ('/r404', ep_raise404), ('/r403', ep_ret403), ('/nb', ep_nb), ('/boom', ep_boom),
                         GET('/getonly', ep_resp)], middlewares=mws)
 
 
-_PATHS = ['/resp', '/ctx', '/redir', '/r404', '/r403', '/nb', '/boom', '/getonly', '/unknown', '/retlong', '/raiselong']
+_PATHS = ['/resp', '/ctx', '/redir', '/r404', '/r403', '/nb', '/boom', '/getonly', '/unknown', '/retlong', '/raiselong', '/echo', '/passthrough']
 _ACCEPTS = [None, 'text/html', 'application/json', '*/*']
 
 
@@ -243,7 +251,10 @@ def _end_to_end(mw_i, path_i, method_i, gzip_ok, qs_i, acc_i):
     outs = []
     for mws in ([], [_mw(mw_i)]):
         app = _scenario(mws)
-        resp = app.get_local_client().open(_PATHS[path_i], method=method, headers=hdrs, query_string=QUERIES[qs_i])
+        kw = {}
+        if method == 'POST':
+            kw = dict(data='a=1&b=two+words&p=9', content_type='application/x-www-form-urlencoded')
+        resp = app.get_local_client().open(_PATHS[path_i], method=method, headers=hdrs, query_string=QUERIES[qs_i], **kw)
         body = resp.get_data()
         if resp.headers.get('Content-Encoding') == 'gzip':
             if not gzip_ok:
